@@ -70,7 +70,14 @@ def gen_simulation(rs, n_rows=(24, 60), force_nn_pair=None, absent_arm=False):
             c["np"]["k"] = max(1, min(c["np"]["k"], n_train))
         if c["np"]["kind"] == "clusters":
             c["np"]["n_clusters"] = 2
-    return {"cfgs": cfgs, "arms": arms, "d": d, "r": r, "X": X, "nf": nf,
+    # source hook MABWISER_VERIF_GB_SCALE (guarded by MABWISER_VERIF=1): scale the simulator's estimate of the distance list
+    # so that the test rows / batches are processed in several chunks, as they would be with > 1 GB of distances
+    gb_scale = None
+    if contextual and rs.integers(2):
+        pairs_gb = n_test * 8 * n_train / 1e9
+        want_chunk = int(gen.pick(rs, [1, 2, 3, 5, max(1, n_test // 2)]))
+        gb_scale = (n_test / (want_chunk + 0.5)) / pairs_gb if n_test > want_chunk else None
+    return {"cfgs": cfgs, "arms": arms, "d": d, "r": r, "X": X, "nf": nf, "gb_scale": gb_scale,
             "params": {"test_size": test_size, "is_ordered": is_ordered, "batch_size": batch_size,
                        "is_quick": bool(rs.integers(2)), "seed": int(gen.pick(rs, [0, 7, 123456, int(rs.integers(10 ** 6))]))},
             "n_test": n_test, "n_train": n_train}
@@ -106,12 +113,19 @@ def run_simulator(sim_spec, bandits):
     X = None if sim_spec["X"] is None else np.asarray(sim_spec["X"], dtype=float)
     root = logging.getLogger()
     before = list(root.handlers)
+    import os
+    if sim_spec.get("gb_scale"):
+        os.environ["MABWISER_VERIF_GB_SCALE"] = repr(float(sim_spec["gb_scale"]))
+    else:
+        os.environ.pop("MABWISER_VERIF_GB_SCALE", None)
     try:
         sim = Simulator(bandits=bandits, decisions=d, rewards=r, contexts=X, scaler=None, test_size=p["test_size"],
                         is_ordered=p["is_ordered"], batch_size=p["batch_size"], seed=p["seed"], is_quick=p["is_quick"])
         sim.run()
     finally:
+        os.environ.pop("MABWISER_VERIF_GB_SCALE", None)
         for h in list(root.handlers):
             if h not in before:
                 root.removeHandler(h)
+    sim_spec["chunk_size_used"] = int(getattr(sim, "_chunk_size", 0))
     return sim
